@@ -61,10 +61,15 @@ def hist_execute(case):
     tr = ciw.trackers.StateTracker()
     node = types.SimpleNamespace(increment_time=lambda a, b: a + b)
     tr.simulation = types.SimpleNamespace(nodes=[None, node], current_time=0.0)
-    tr.history = [[t, s] for t, s in zip(case["times"], case["states"])]
+    full = [[t, s] for t, s in zip(case["times"], case["states"])]
     a, b = case["window"]
     viol = []
     try:
+        # the same window is first queried on a prefix of the history (a paused run) and then on the full history
+        k = 1 + (len(full) * 7 + int(a * 8)) % len(full)
+        tr.history = full[:k]
+        tr.state_probabilities(observation_period=(a, b))
+        tr.history = full
         got = tr.state_probabilities(observation_period=(a, b))
     except Exception as e:
         return {"violations": [{"property": ID, "clause": "C17.state_probabilities-raises", "site": type(e).__name__, "details": case}],
@@ -98,6 +103,10 @@ def subchecks(tier):
     return [
         system_subcheck("system", prof, lambda spec: [TrackerTruth(spec)], nontrivial, classes=classes,
                         n={"quick": 9600, "thorough": 50000}, rule="hash_state vs ground truth after every event; history audit"),
+        system_subcheck("sched_blocked", common.region_profile("C17", more_weights={"tracker": 1.0}, required=("schedule", "capacity", "tracker")),
+                        lambda spec: [TrackerTruth(spec)], lambda a, spec, res: a.get("blocked_seen", 0) >= 1 and a.get("rec_interrupted_service", 0) >= 1,
+                        classes=classes, n={"quick": 4800, "thorough": 30000},
+                        rule="pre-emptive schedules x blocking region with every tracker (MatrixBlocking excluded there: F6h)"),
         SubCheck("state_probabilities", hist_execute, strategy=hist_case(), n={"quick": 24000, "thorough": 80000}, kind="unit", is_spec=False,
                  rule="histories of 1-7 states on a dyadic time grid x finite windows with endpoints on / between / beyond timestamps; non-trivial = >= 3 states"),
     ]
